@@ -83,7 +83,7 @@ def units_for(prop):
     for u in json.loads(r.stdout):
         if prop in u['props'] and (u['module'], u['name']) not in seen:
             # a module may re-export the summaries of another one: keep the first occurrence
-            if any(x['name'] == u['name'] for x in out):
+            if any(x['name'] == u['name'] and x['trusted'] == u['trusted'] for x in out):
                 continue
             seen.add((u['module'], u['name']))
             out.append(u)
